@@ -126,6 +126,8 @@ var sites = []siteSpec{
 	{"pkg/util/cache.go", "Cache.ClearExpired"},
 	{"pkg/v3/plugin/hooks/add_from_staging.go", "AddFromStagingHook.RunHook"},
 	{"pkg/v3/plugin/hooks/add_from_staging.go", "AddFromStagingHook.addByPercentageExceeded"},
+	{"pkg/v3/plugin/hooks/add_from_staging.go", "stagedResultSorter.updateShuffledIDs"},
+	{"pkg/v3/stores/metadata_store.go", "metadataStore.SetBlockHistory"},
 	{"pkg/v3/plugin/hooks/add_log_proposals.go", "AddLogProposalsHook.RunHook"},
 	{"pkg/v3/plugin/hooks/add_conditional_proposals.go", "AddConditionalProposalsHook.RunHook"},
 	{"pkg/v3/plugin/hooks/add_block_history.go", "AddBlockHistoryHook.RunHook"},
